@@ -145,6 +145,7 @@ func main() {
 				continue
 			}
 			addImport(f, rtImport)
+			keepImports(f)
 			f.Comments = nil
 			stripDocs(f)
 			var buf bytes.Buffer
@@ -185,6 +186,27 @@ func stripDocs(f *ast.File) {
 		}
 		return true
 	})
+}
+
+// keepImports: calls into time, context and sync may all have been rewritten
+// away; a reference is added so that the file still uses what it imports.
+func keepImports(f *ast.File) {
+	ref := map[string]string{"time": "Now", "context": "Background", "sync": "NewCond", "sync/atomic": "AddInt32", "golang.org/x/sync/errgroup": "WithContext"}
+	for _, im := range f.Imports {
+		path := strings.Trim(im.Path.Value, `"`)
+		sym, ok := ref[path]
+		if !ok || (im.Name != nil && (im.Name.Name == "_" || im.Name.Name == ".")) {
+			continue
+		}
+		name := path[strings.LastIndex(path, "/")+1:]
+		if im.Name != nil {
+			name = im.Name.Name
+		}
+		f.Decls = append(f.Decls, &ast.GenDecl{Tok: token.VAR, Specs: []ast.Spec{&ast.ValueSpec{
+			Names:  []*ast.Ident{ast.NewIdent("_")},
+			Values: []ast.Expr{&ast.SelectorExpr{X: ast.NewIdent(name), Sel: ast.NewIdent(sym)}},
+		}}})
+	}
 }
 
 func addImport(f *ast.File, path string) {
@@ -351,7 +373,7 @@ func (rw *rewriter) file(f *ast.File) {
 			c.Fun = rt(name)
 			rw.used = true
 		}
-		if p, t, m := rw.methodOf(c); p == "time" && ((t == "Timer" && m == "Reset") || (t == "Ticker" && (m == "Stop" || m == "Reset"))) {
+		if p, t, m := rw.methodOf(c); p == "time" && ((t == "Timer" && (m == "Reset" || m == "Stop")) || (t == "Ticker" && (m == "Stop" || m == "Reset"))) {
 			x := c.Fun.(*ast.SelectorExpr).X
 			c.Fun = rt(t + m)
 			c.Args = append([]ast.Expr{x}, c.Args...)
@@ -596,6 +618,18 @@ func (rw *rewriter) stmt(st ast.Stmt) []ast.Stmt {
 				return inner
 			}
 		}
+		// a labelled select that was rewritten into { tries...; switch chosen {...} }:
+		// "break L" inside a case body leaves the select, i.e. the final switch
+		if _, ok := s.Stmt.(*ast.SelectStmt); ok {
+			for _, x := range inner {
+				if b, ok := x.(*ast.BlockStmt); ok && len(b.List) > 0 {
+					if sw, ok := b.List[len(b.List)-1].(*ast.SwitchStmt); ok {
+						b.List[len(b.List)-1] = &ast.LabeledStmt{Label: s.Label, Stmt: sw}
+						return inner
+					}
+				}
+			}
+		}
 		rw.refuse(s, "labelled statement rewrite")
 		return []ast.Stmt{st}
 
@@ -632,6 +666,11 @@ func (rw *rewriter) stmt(st ast.Stmt) []ast.Stmt {
 				handled[c] = true
 				return rw.bracket(st, c, k)
 			}
+		}
+
+	case *ast.DeclStmt:
+		if n := rw.firstBlocking(s); n != nil {
+			return rw.bracket(st, n, "recv")
 		}
 
 	case *ast.AssignStmt:
@@ -784,7 +823,43 @@ func (rw *rewriter) stmt(st ast.Stmt) []ast.Stmt {
 			return []ast.Stmt{y, st, woke(h, site)}
 		}
 	}
+	// A simple statement with a receive or a blocking call somewhere inside an
+	// expression (f(<-ch), x = append(x, <-ch)): the whole statement is bracketed.
+	switch st.(type) {
+	case *ast.ExprStmt, *ast.AssignStmt, *ast.IncDecStmt:
+		if n := rw.firstBlocking(st); n != nil {
+			return rw.bracket(st, n, "recv")
+		}
+	}
 	return []ast.Stmt{st}
+}
+
+// firstBlocking marks every not yet handled receive and blocking call inside n
+// (function literals excepted) as handled and returns the first, or nil.
+func (rw *rewriter) firstBlocking(n ast.Node) ast.Node {
+	var first ast.Node
+	ast.Inspect(n, func(x ast.Node) bool {
+		switch y := x.(type) {
+		case *ast.FuncLit:
+			return false
+		case *ast.UnaryExpr:
+			if y.Op == token.ARROW && !handled[y] {
+				handled[y] = true
+				if first == nil {
+					first = y
+				}
+			}
+		case *ast.CallExpr:
+			if !handled[y] && rw.blockingCall(y) != "" {
+				handled[y] = true
+				if first == nil {
+					first = y
+				}
+			}
+		}
+		return true
+	})
+	return first
 }
 
 // prioritised rewrites a blocking select whose cases bind no values:
@@ -904,6 +979,12 @@ func (rw *rewriter) goStmt(g *ast.GoStmt) []ast.Stmt {
 	rhs = append(rhs, c.Fun)
 	var args []ast.Expr
 	for _, a := range c.Args {
+		// untyped constants (nil, literals, true/false) cannot be bound to a
+		// variable without their parameter's type: they stay where they are
+		if tv, ok := rw.info.Types[a]; ok && (tv.IsNil() || tv.Value != nil) {
+			args = append(args, a)
+			continue
+		}
 		v := rw.fresh("a")
 		lhs = append(lhs, v)
 		rhs = append(rhs, a)
